@@ -861,6 +861,16 @@ func runCheck(prop, tier, repo, verif string, verbose bool, tmo int) int {
 
 var boundedNotes []string
 
+func countNotBounded(names []string) int {
+	n := 0
+	for _, x := range names {
+		if !strings.HasPrefix(x, "bounded:") {
+			n++
+		}
+	}
+	return n
+}
+
 func boundedNotesOrEmpty() []string {
 	if boundedNotes == nil {
 		return []string{}
@@ -935,7 +945,7 @@ func writeEvidence(eng *Engine, pr *propRun, prop, tier, verif string, discharge
 	sort.Strings(assumptions)
 	level := "proof"
 	cov := map[string]interface{}{
-		"obligations":               len(discharged) + len(knownHit) + violations,
+		"obligations":               len(discharged) + countNotBounded(knownHit) + violations,
 		"discharged":                len(discharged),
 		"checker_cmd":               fmt.Sprintf("bin/csvqvc check %s --tier %s", prop, tier),
 		"trusted_base":              []string{"csvqvc VC generator (this repository, /verif/engine)", "golang.org/x/tools/go/ssa v0.29.0", "z3 5.1.0", "z3 4.8.12", "cvc5 1.0"},
